@@ -121,6 +121,7 @@ func extract(ctx context.Context, rs io.ReadSeeker, scanFunc func() osm.Scanner,
 		if err := eg.Wait(); err != nil {
 			return nil, err
 		}
+		verifRec("passend", 'p', 0, needAnotherPass, false)
 	}
 	return o, nil
 }
@@ -227,6 +228,7 @@ func hasTag(tags osm.Tags, wantTags map[string][]string) bool {
 func (o *Data) hasNeedNode(id osm.NodeID) (has, need bool) {
 	o.nodeMX.RLock()
 	defer o.nodeMX.RUnlock()
+	defer verifRecHN('n', int64(id), &has, &need)
 	if _, ok := o.Nodes[id]; ok {
 		has = true
 		return
@@ -242,6 +244,7 @@ func (o *Data) hasNeedNode(id osm.NodeID) (has, need bool) {
 func (o *Data) hasNeedWay(id osm.WayID) (has, need bool) {
 	o.wayMX.RLock()
 	defer o.wayMX.RUnlock()
+	defer verifRecHN('w', int64(id), &has, &need)
 	if _, ok := o.Ways[id]; ok {
 		has = true
 		return
@@ -257,6 +260,7 @@ func (o *Data) hasNeedWay(id osm.WayID) (has, need bool) {
 func (o *Data) hasNeedRelation(id osm.RelationID) (has, need bool) {
 	o.relationMX.RLock()
 	defer o.relationMX.RUnlock()
+	defer verifRecHN('r', int64(id), &has, &need)
 	if _, ok := o.Relations[id]; ok {
 		has = true
 		return
@@ -271,18 +275,22 @@ func (o *Data) hasNeedRelation(id osm.RelationID) (has, need bool) {
 
 // If the node has the tag we want, add it to the list.
 func (o *Data) processNode(n *osm.Node, keep KeepFunc, keepTags bool) {
+	defer verifEnter('n', int64(n.ID))()
 	hasNode, needNode := o.hasNeedNode(n.ID)
 	if hasNode {
 		return
 	}
 	if keep(o, n) || needNode {
+		verifGate("store", 'n', int64(n.ID))
 		o.nodeMX.Lock()
 		o.Nodes[n.ID] = copyNode(n, keepTags)
+		verifRec("store", 'n', int64(n.ID), true, false)
 		o.nodeMX.Unlock()
 	}
 }
 
 func (o *Data) processNodeNoCopy(n *Node, keep KeepFunc, keepTags bool) {
+	verifRec("visit", 'n', int64(n.ID), false, false)
 	hasNode, needNode := o.hasNeedNode(n.ID)
 	if hasNode {
 		return
@@ -297,18 +305,24 @@ func (o *Data) processNodeNoCopy(n *Node, keep KeepFunc, keepTags bool) {
 // If the way has the tag we want or if we've determined that it's
 // part of a relation that we want, store the way and the IDs of its dependent nodes.
 func (o *Data) processWay(w *osm.Way, keep KeepFunc, keepTags bool) (anotherPass bool) {
+	defer verifEnter('w', int64(w.ID))()
 	hasWay, needWay := o.hasNeedWay(w.ID)
 	if hasWay {
 		return
 	}
 	if keep(o, w) || needWay {
+		verifGate("store", 'w', int64(w.ID))
 		o.wayMX.Lock()
 		o.Ways[w.ID] = copyWay(w, keepTags)
+		verifRec("store", 'w', int64(w.ID), true, false)
 		o.wayMX.Unlock()
 		for _, n := range w.Nodes {
+			verifGate("dep", 'n', int64(n.ID))
 			if _, needNode := o.hasNeedNode(n.ID); !needNode {
+				verifGate("needw", 'n', int64(n.ID))
 				o.dependentNodeMX.Lock()
 				o.dependentNodes[n.ID] = empty{}
+				verifRec("needw", 'n', int64(n.ID), false, true)
 				o.dependentNodeMX.Unlock()
 				anotherPass = true
 			}
@@ -318,6 +332,7 @@ func (o *Data) processWay(w *osm.Way, keep KeepFunc, keepTags bool) (anotherPass
 }
 
 func (o *Data) processWayNoCopy(w *Way, keep KeepFunc, keepTags bool) (anotherPass bool) {
+	verifRec("visit", 'w', int64(w.ID), false, false)
 	hasWay, needWay := o.hasNeedWay(w.ID)
 	if hasWay {
 		return
@@ -341,34 +356,46 @@ func (o *Data) processWayNoCopy(w *Way, keep KeepFunc, keepTags bool) (anotherPa
 // members and set the flag for another pass through the file to
 // get the IDs for the dependent nodes, ways and other relations in the relation.
 func (o *Data) processRelation(r *osm.Relation, keep KeepFunc, keepTags bool) (anotherPass bool) {
+	defer verifEnter('r', int64(r.ID))()
 	hasRelation, needRelation := o.hasNeedRelation(r.ID)
 	if hasRelation {
 		return
 	}
 	if keep(o, r) || needRelation {
+		verifGate("store", 'r', int64(r.ID))
 		o.relationMX.Lock()
 		o.Relations[r.ID] = copyRelation(r, keepTags)
+		verifRec("store", 'r', int64(r.ID), true, false)
 		o.relationMX.Unlock()
 		for _, m := range r.Members {
 			switch m.Type {
 			case osm.TypeNode:
+				verifGate("dep", 'n', m.Ref)
 				if _, needNode := o.hasNeedNode(osm.NodeID(m.Ref)); !needNode {
+					verifGate("needw", 'n', m.Ref)
 					o.dependentNodeMX.Lock()
 					o.dependentNodes[osm.NodeID(m.Ref)] = empty{}
+					verifRec("needw", 'n', m.Ref, false, true)
 					o.dependentNodeMX.Unlock()
 					anotherPass = true
 				}
 			case osm.TypeWay:
+				verifGate("dep", 'w', m.Ref)
 				if _, needWay := o.hasNeedWay(osm.WayID(m.Ref)); !needWay {
+					verifGate("needw", 'w', m.Ref)
 					o.dependentWayMX.Lock()
 					o.dependentWays[osm.WayID(m.Ref)] = empty{}
+					verifRec("needw", 'w', m.Ref, false, true)
 					o.dependentWayMX.Unlock()
 					anotherPass = true
 				}
 			case osm.TypeRelation:
+				verifGate("dep", 'r', m.Ref)
 				if _, needR := o.hasNeedRelation(osm.RelationID(m.Ref)); !needR {
+					verifGate("needw", 'r', m.Ref)
 					o.dependentRelationMX.Lock()
 					o.dependentRelations[osm.RelationID(m.Ref)] = empty{}
+					verifRec("needw", 'r', m.Ref, false, true)
 					o.dependentRelationMX.Unlock()
 					anotherPass = true
 				}
@@ -381,6 +408,7 @@ func (o *Data) processRelation(r *osm.Relation, keep KeepFunc, keepTags bool) (a
 }
 
 func (o *Data) processRelationNoCopy(r *Relation, keep KeepFunc, keepTags bool) (anotherPass bool) {
+	verifRec("visit", 'r', int64(r.ID), false, false)
 	hasRelation, needRelation := o.hasNeedRelation(r.ID)
 	if hasRelation {
 		return
